@@ -21,6 +21,8 @@ import (
 	"github.com/lestrrat-go/jwx/v2/jwk"
 	"github.com/tetratelabs/telemetry"
 	"github.com/tetratelabs/telemetry/function"
+	"sigs.k8s.io/controller-runtime/pkg/client"
+	"sigs.k8s.io/controller-runtime/pkg/client/fake"
 
 	configv1 "github.com/istio-ecosystem/authservice/config/gen/go/v1"
 	oidcv1 "github.com/istio-ecosystem/authservice/config/gen/go/v1/oidc"
@@ -189,6 +191,8 @@ type World struct {
 	chainSID  map[int]string
 	lostReply map[int]bool
 	k8sMode   bool
+	K8s       client.Client
+	k8sRef    map[string]string // secret name -> value as of the last completed reconcile
 	crossFilterKnown bool
 	corruptStore bool
 	Boots   int
@@ -394,6 +398,25 @@ func (w *World) Boot() *Replica {
 				i++
 			}
 		}
+	}
+	// Kubernetes client-secret references: the controller as the start-up wiring builds it, with the
+	// (fake) API client injected the way PreRun would have obtained it in-cluster.
+	needK8s := false
+	for _, f := range w.Spec.Filters {
+		if f.SecretRef != "" {
+			needK8s = true
+		}
+	}
+	if needK8s {
+		if w.K8s == nil {
+			w.K8s = fake.NewClientBuilder().Build()
+		}
+		r.secrets = k8s.NewSecretController(r.cfg)
+		if err := r.secrets.VerifSetup("default", w.K8s); err != nil {
+			r.BootErr = fmt.Errorf("%w: secret controller: %v", errBoot, err)
+			return r
+		}
+		w.k8sMode = true
 	}
 	var fac oidc.SessionStoreFactory = r.sessions
 	var jw oidc.JWKSProvider = r.jwks
